@@ -39,7 +39,7 @@ func c17Bounded(ck *Checker, rep *Report, opts *Options) {
 		"internal/shellparse/zz_verif_rt_test.go": "harness/c17_shellparse_test.go",
 		"xtool/safesplit/zz_verif_rt_test.go":     "harness/c17_safesplit_test.go",
 	}, []string{"./internal/shellparse/", "./xtool/safesplit/"}, "TestZZVerifRoundTrip", []string{"VERIF_C17_K=" + k}, 2,
-		"roundtrip", "quoted form of at most K="+k+" characters over an 11-symbol alphabet (letter, blank, tab, newline, both quotes, backslash, '-', '$', two non-ASCII runes incl. one whose UTF-8 form contains the byte 0xA0; safesplit: newline and carriage return inside arguments); shellparse: both always-quoted and quoted-only-when-needed forms")
+		"roundtrip", "quoted form of at most K="+k+" characters over an 11-symbol alphabet (letter, blank, tab, newline, both quotes, backslash, '-', '$', two non-ASCII runes: U+00E0 (Latin-1, UTF-8 form contains the byte 0xA0) and U+0485 (above Latin-1, UTF-8 form contains 0x85 and the code point's low byte is the white-space code 0x85); safesplit: newline and carriage return inside arguments); shellparse: both always-quoted and quoted-only-when-needed forms")
 }
 
 // runBounded runs bounded harness tests injected into /repo packages through
